@@ -80,9 +80,15 @@ var lcReasons = map[string][]string{
 	// Close(false) with packets still buffered and a client that never polls again: the buffered close
 	// fires after the close timeout, or the heartbeat gives up first
 	"appCloseNoPoll": {"forced close", "ping timeout"},
+	// a write of the server fails (broken pipe / the peer stopped the receiving side of its stream) before its
+	// reader has noticed anything
+	"writeFail": {"transport error", "transport close"},
+	// the peer vanishes without a trace (a half-open connection: no FIN, no RST): it neither reads nor sends
+	// any more, the server's writer blocks once the window is full; the heartbeat gives up
+	"stall": {"ping timeout"},
 }
 
-var lcCauses = []string{"closePacket", "drop", "overlap", "wrongHeartbeat", "garbage", "silence", "appClose", "appCloseNow", "appCloseNoPoll", "appCloseNoPoll"}
+var lcCauses = []string{"closePacket", "drop", "overlap", "wrongHeartbeat", "garbage", "silence", "appClose", "appCloseNow", "appCloseNoPoll", "appCloseNoPoll", "writeFail", "stall"}
 
 type lcSess struct {
 	idx               int
@@ -95,6 +101,7 @@ type lcSess struct {
 	sid               string
 	causes            []string // injected so far
 	silent            bool     // stopped answering pings
+	vanished          bool     // the peer is gone without a trace (no FIN/RST): it neither reads nor sends any more
 	noPoll            bool     // polling client that never polls again
 	answered          int
 	closeEvIdx        int // index in sr.Events of the close event, -1
@@ -222,6 +229,9 @@ func genLC(rt *rapid.T, gates bool, known map[string]bool, col *Collector) []lcS
 // ---- client-side actions -------------------------------------------------------
 
 func (s *lcSess) sendPkt(p Pkt) {
+	if s.vanished {
+		return
+	}
 	switch {
 	case s.pc != nil:
 		s.pc.StartPost([]Pkt{p}, false)
@@ -329,6 +339,13 @@ func (lw *lcWorld) causeFn(s *lcSess, cause string) func() {
 	if s.sr == nil {
 		return nil
 	}
+	if s.vanished {
+		switch cause {
+		case "closePacket", "drop", "overlap", "wrongHeartbeat", "garbage", "writeFail", "stall":
+			// a peer that vanished does nothing any more
+			return nil
+		}
+	}
 	switch cause {
 	case "closePacket":
 		switch {
@@ -394,6 +411,34 @@ func (lw *lcWorld) causeFn(s *lcSess, cause string) func() {
 		}
 	case "silence":
 		return func() { s.silent = true }
+	case "writeFail":
+		if s.pc != nil {
+			return nil
+		}
+		return func() {
+			lw.stats["server-write-fails-before-its-reader-notices"] = true
+			if s.wc != nil {
+				s.wc.FailServerWrites()
+			} else {
+				s.tc.FailServerWrites()
+			}
+			lw.w.AppSend(s.sr, msgT("a write that fails"), nil, true, 0)
+		}
+	case "stall":
+		if s.pc != nil {
+			return nil
+		}
+		return func() {
+			lw.stats["peer-stops-reading"] = true
+			s.silent, s.vanished = true, true
+			if s.wc != nil {
+				s.wc.StopReading()
+			} else {
+				s.tc.StopReading()
+			}
+			// the writer goroutine of the transport now blocks in its write
+			lw.w.AppSend(s.sr, msgT("a write that blocks"), nil, true, 0)
+		}
 	case "appCloseNoPoll":
 		if s.pc == nil {
 			return nil
@@ -1093,6 +1138,18 @@ func runLC(steps []lcStep) (*lcWorld, bubbleResult) {
 			}
 		}
 		lw.checkAll("end")
+		// in the end the network stack gives up on the connections of peers that vanished (retransmission /
+		// idle timeout): once a connection is reported gone nothing of its session may be left behind
+		for i := 0; i < len(lw.sess); i++ {
+			if s := lw.sess[i]; s != nil && s.vanished {
+				if s.wc != nil {
+					s.wc.NetworkGivesUp()
+				} else if s.tc != nil {
+					s.tc.NetworkGivesUp()
+				}
+			}
+		}
+		Settle()
 	})
 	return lw, res
 }
@@ -1139,7 +1196,7 @@ func TestC03Lifecycle(t *testing.T) {
 			}
 		})
 	}
-	req := []string{"upgrade-packet-inside-the-close-listener", "closed-inside-the-connection-listener", "session-closed-inside-Send", "carrier.polling", "carrier.websocket", "carrier.webtransport", "two-causes-same-instant", ">=2-causes-on-one-session", "activity-after-close", "stayed-open", "server-close"}
+	req := []string{"server-write-fails-before-its-reader-notices", "peer-stops-reading", "upgrade-packet-inside-the-close-listener", "closed-inside-the-connection-listener", "session-closed-inside-Send", "carrier.polling", "carrier.websocket", "carrier.webtransport", "two-causes-same-instant", ">=2-causes-on-one-session", "activity-after-close", "stayed-open", "server-close"}
 	if !known[sigDoubleClose] {
 		req = append(req, "second-cause-inside-OnClose-window")
 	}
@@ -1180,7 +1237,7 @@ func TestC04Registry(t *testing.T) {
 			}
 		})
 	}
-	req := []string{"server-close", "shutdown>=2-sessions", "activity-after-close", "table-consolidated-inside-delete-window", "closed-inside-the-connection-listener"}
+	req := []string{"server-close", "shutdown>=2-sessions", "activity-after-close", "table-consolidated-inside-delete-window", "closed-inside-the-connection-listener", "server-write-fails-before-its-reader-notices", "peer-stops-reading"}
 	if !known[sigDiedInHS] {
 		req = append(req, "cause-during-handshake")
 	}
